@@ -74,8 +74,7 @@ if case["parent_threads"] > 1:
 # random per-task delays (derived from seed, tower, step), injected before the pool forks
 orig = itf.run_bldfm_single
 def delayed(config, tower, met_index=0, surface_flux=None, cache=None):
-    h = int(hashlib.md5(("%%d-%%s-%%d" %% (case["dseed"], tower.name, met_index)).encode()).hexdigest()[:6], 16)
-    time.sleep((h %% 100) / 100.0 * case["max_delay"])
+    time.sleep(C14.task_delay(case, tower.name, met_index))
     return orig(config, tower, met_index=met_index, surface_flux=surface_flux, cache=cache)
 itf.run_bldfm_single = delayed
 try:
@@ -87,6 +86,24 @@ finally:
     itf.run_bldfm_single = orig
 print("RESULT " + json.dumps(out))
 '''
+
+
+def task_delay(case, tower_name, step):
+    """per-task delay that shapes the completion order of the pool's tasks.  order = "hash": pseudo-random from
+    (seed, tower, step); "reverse": later steps (and later towers) finish first; "perm": the tasks finish in a chosen
+    permutation (seeded); with at least as many workers as tasks the completion order is exactly the chosen one"""
+    nt, ns = case["towers"], case["steps"]
+    k = int(tower_name[1:])
+    order = case.get("order", "hash")
+    if order == "reverse":
+        rank = ((ns - 1 - step) * nt + (nt - 1 - k)) / max(nt * ns - 1, 1)
+    elif order == "perm":
+        perm = np.random.default_rng(case["dseed"]).permutation(nt * ns)
+        rank = float(perm[k * ns + step]) / max(nt * ns - 1, 1)
+    else:
+        h = int(hashlib.md5(("%d-%s-%d" % (case["dseed"], tower_name, step)).encode()).hexdigest()[:6], 16)
+        rank = (h % 100) / 100.0
+    return rank * case["max_delay"]
 
 
 def run_real(case):
@@ -145,7 +162,8 @@ def o_parallel(case):
 
 def gen_case(rng, k):
     strategy = ["towers", "time", "both"][k % 3] if rng.random() < 0.93 else "bogus"
-    return dict(towers=int(rng.integers(1, 4)), steps=int(rng.integers(1, 4)), strategy=strategy, workers=int(rng.integers(1, 6)),
+    return dict(towers=int(rng.integers(1, 4)), steps=int(rng.integers(1, 6)), strategy=strategy, workers=int(rng.choice([1, 2, 3, 4, 5, 8, 12])),
+                order=str(rng.choice(["hash", "reverse", "perm", "perm"])),
                 parent_threads=int(rng.choice([1, 4])), cache=bool(rng.random() < 0.5), footprint=bool(rng.random() < 0.7),
                 repeat_met=bool(rng.random() < 0.5), timestamps=str(rng.choice(["none", "ascending", "wrap", "descending", "duplicate"])), cseed=int(rng.integers(1 << 30)),
                 dseed=int(rng.integers(1 << 30)), max_delay=float(rng.choice([0.0, 0.3, 0.6])))
@@ -175,11 +193,14 @@ def run(rng, tier, deep):
     cases = [gen_case(rng, k) for k in range(budget(tier, deep, 9, 60))]
     cases[0].update(towers=1, steps=1)
     if len(cases) > 2:
-        cases[1].update(towers=3, steps=3, workers=5, strategy="both", max_delay=0.6, timestamps="wrap")
-        cases[2].update(towers=2, steps=3, workers=3, strategy="time", parent_threads=4, timestamps="wrap", max_delay=0.6)
+        cases[1].update(towers=2, steps=4, workers=8, strategy="both", max_delay=0.9, timestamps="wrap", order="reverse")
+        cases[2].update(towers=2, steps=4, workers=4, strategy="time", parent_threads=4, timestamps="wrap", max_delay=0.6, order="reverse")
     if len(cases) > 4:
         cases[3].update(towers=2, steps=3, workers=3, strategy="time", timestamps="duplicate", max_delay=0.6, repeat_met=False)
-        cases[4].update(towers=3, steps=2, workers=4, strategy="towers", timestamps="descending", max_delay=0.6)
+        cases[4].update(towers=3, steps=2, workers=4, strategy="towers", timestamps="descending", max_delay=0.6, order="reverse")
+    if len(cases) > 6:
+        cases[5].update(towers=3, steps=3, workers=12, strategy="both", max_delay=0.9, order="perm", timestamps="none")
+        cases[6].update(towers=1, steps=5, workers=5, strategy="both", max_delay=0.8, order="reverse", timestamps="ascending")
     with ThreadPoolExecutor(max_workers=4) as ex:
         outs = list(ex.map(run_real, cases))
     for c, o in zip(cases, outs):
@@ -195,8 +216,8 @@ def run(rng, tier, deep):
         if f:
             f["input"] = dict(oracle="o_parallel", case=c)
             st["oracle_failures"].append(f)
-    return finish(st, "(towers x steps) in {1..3}x{1..3} incl. 1x1, the three strategies (+ an invalid one), workers 1..5 (more than tasks included), per-task "
-                  "delays derived from (seed, tower, step) injected before the pool forks, parent NUM_THREADS 1 and 4 (with a parent-side solve so that workers "
+    return finish(st, "(towers x steps) in {1..3}x{1..5} incl. 1x1, the three strategies (+ an invalid one), workers 1..12 (more than tasks included), per-task "
+                  "delays injected before the pool forks that force the completion order (pseudo-random, exactly reversed, or a chosen permutation of the tasks), parent NUM_THREADS 1 and 4 (with a parent-side solve so that workers "
                   "inherit a non-trivial state), cache on/off, repeated met conditions within a series, index / ascending / midnight-wrapping / descending / duplicate timestamp labels; correspondence: the Lean pool model "
                   "under EVERY completion order of the small task sets; oracle: every slot's (tower, timestamp, params, sha of conc/flx/grid) bit-exact against "
                   "real single runs, key order and time order", deep, 0)
